@@ -18,6 +18,8 @@ pub struct FileCfg {
     pub known: bool,
     pub signal: String,
     pub seed: u64,
+    /// a file made elsewhere (FlacGen): path of a JSON object {bytes, pcm (interleaved), frames: [[first sample, offset, pcm frames]]}
+    pub given: Option<String>,
 }
 
 impl FileCfg {
@@ -32,9 +34,20 @@ impl FileCfg {
             known: v["known"].as_bool().unwrap_or(true),
             signal: v["signal"].as_str().unwrap_or("noise").to_string(),
             seed: v["seed"].as_u64().unwrap_or(7),
+            given: v["given"].as_str().map(|s| s.to_string()),
         }
     }
     pub fn build(&self) -> (Built, Vec<i32>) {
+        if let Some(path) = &self.given {
+            let g: Value = serde_json::from_str(&std::fs::read_to_string(path).expect("given file")).expect("given json");
+            let bytes: Vec<u8> = g["bytes"].as_array().unwrap().iter().map(|x| x.as_u64().unwrap() as u8).collect();
+            let pcm: Vec<i32> = g["pcm"].as_array().unwrap().iter().map(|x| x.as_i64().unwrap() as i32).collect();
+            let frames = g["frames"].as_array().unwrap().iter()
+                .map(|f| (f[0].as_u64().unwrap(), f[1].as_u64().unwrap(), f[2].as_u64().unwrap())).collect();
+            let (_, frames_start) = crate::flacfile::split_blocks(&bytes).expect("given file has no metadata");
+            let plain = Built { bytes, frames_start, frames };
+            return (with_seektable(&plain, &self.seek, !self.known), pcm);
+        }
         let mut rng = Rng::new(self.seed);
         let pcm = gen_pcm(&self.signal, &mut rng, self.channels as usize, self.bps, self.frames);
         let plain = encode_plain(&pcm, self.channels, self.bps, 44100, self.block_size, true, None)
